@@ -47,7 +47,7 @@ type Case struct {
 	// Lazy (with Reverse): the server answers a stream only just before its first DATA on
 	// it, so a WINDOW_UPDATE the client sends for the stream earlier reaches the relay
 	// before the relay has forwarded anything on that stream toward the client.
-	Lazy bool `json:"lazy,omitempty"`
+	Lazy    bool `json:"lazy,omitempty"`
 	Streams int  `json:"streams"`
 	Ops     []Op `json:"ops"`
 	Procs   int  `json:"procs,omitempty"`
@@ -699,6 +699,7 @@ func runOnce(c Case, bound time.Duration) (kit.Verdict, bool) {
 var patience h2kit.Patience
 
 func run(c Case) kit.Verdict {
+	h2kit.ShortShrink()
 	bound, revalidate := patience.Bound()
 	v, slow := runOnce(c, bound)
 	if !slow {
